@@ -1259,3 +1259,173 @@ Proof.
   intros c o W k H. destruct (exec_get_or (fuel_of c) (JCleanup o) c W k) as [(p & ow & Hs & Hp & Hk)|E];
     [|exact E]. exfalso. exact (H p ow Hs Hp Hk).
 Qed.
+
+(** * context lookup finds the nearest providing live ancestor *)
+Inductive nearest (c : core) (ty : nat) : nat -> option Z -> Prop :=
+| near_here o ow v : nth_error (owners c) o = Some ow -> assoc ty (o_ctx ow) = Some v ->
+                     nearest c ty o (Some v)
+| near_up o ow p r : nth_error (owners c) o = Some ow -> assoc ty (o_ctx ow) = None ->
+                     o_parent ow = Some p -> alive c p = true -> nearest c ty p r ->
+                     nearest c ty o r
+| near_root o ow : nth_error (owners c) o = Some ow -> assoc ty (o_ctx ow) = None ->
+                   o_parent ow = None -> nearest c ty o None
+| near_dead o ow p : nth_error (owners c) o = Some ow -> assoc ty (o_ctx ow) = None ->
+                     o_parent ow = Some p -> alive c p = false -> nearest c ty o None.
+
+(** parents are older than their children *)
+Definition wfp (c : core) : Prop :=
+  forall q oq p, nth_error (owners c) q = Some oq -> o_parent oq = Some p -> p < q.
+
+Lemma lookup_nearest c ty : wfp c -> forall fuel o, o < fuel -> o < length (owners c) ->
+  nearest c ty o (lookup_ctx fuel c o ty).
+Proof.
+  intros Wp. induction fuel as [|f IH]; intros o Hf Hlen; [lia|]. cbn [lookup_ctx].
+  destruct (nth_error (owners c) o) as [ow|] eqn:Ho.
+  2: { apply nth_error_None in Ho. lia. }
+  destruct (assoc ty (o_ctx ow)) as [v|] eqn:Ha; [eapply near_here; eauto|].
+  destruct (o_parent ow) as [p|] eqn:Hp; [|eapply near_root; eauto].
+  destruct (alive c p) eqn:Hal; [|eapply near_dead; eauto].
+  pose proof (Wp o ow p Ho Hp) as Hlt.
+  eapply near_up; eauto. apply IH; lia.
+Qed.
+
+Theorem context_nearest_ancestor : forall c o ty, wfp c -> o < length (owners c) ->
+  nearest c ty o (use_ctx c o ty).
+Proof. intros c o ty Wp Hlt. apply lookup_nearest; auto. Qed.
+
+(** [nearest] is a function: the answer is determined by the ancestor chain *)
+Lemma nearest_fun c ty o r1 r2 : nearest c ty o r1 -> nearest c ty o r2 -> r1 = r2.
+Proof.
+  intros Hn1. revert r2.
+  induction Hn1 as [o ow v Ho Ha|o ow p r Ho Ha Hp Hal Hn IH|o ow Ho Ha Hp|o ow p Ho Ha Hp Hal];
+    intros r2 Hn2; inversion Hn2; subst; try congruence.
+  apply IH. congruence.
+Qed.
+
+(** * the invariant of reachable cores *)
+Definition valid (c : core) (k : key) : Prop := get c k <> None.
+
+Record cinv (c : core) : Prop := {
+  ci_wfs : wfs c;
+  ci_wfp : wfp c;
+  ci_nd : nd c;
+  ci_cid : forall cid, In cid (cids (clog c) ++ pending c) -> cid < next_cid c;
+  (* registered keys were handed out by the arena: their version is not from the future *)
+  ci_keys : forall p ow k, nth_error (owners c) p = Some ow -> In k (o_nodes ow) ->
+            exists s, nth_error (slots c) (fst k) = Some s /\ snd k <= s_ver s;
+  (* the free list names vacant slots, once each *)
+  ci_free : NoDup (free c) /\
+            forall i, In i (free c) -> exists s, nth_error (slots c) i = Some s /\ s_item s = None;
+  (* no leak: what the arena holds is registered with a live owner *)
+  ci_reg : err c = false -> unowned c = false -> forall k, valid c k ->
+           exists p ow, nth_error (owners c) p = Some ow /\ o_alive ow = true /\ In k (o_nodes ow)
+}.
+
+Lemma cinv_core0 : cinv core0.
+Proof.
+  constructor.
+  - constructor; intros [|p] ow; cbn; discriminate.
+  - intros [|q]; cbn; discriminate.
+  - constructor.
+  - intros cid [].
+  - intros [|p]; cbn; discriminate.
+  - split; [constructor|intros i []].
+  - intros _ _ k Hv. exfalso. apply Hv. unfold get. cbn. destruct (fst k); reflexivity.
+Qed.
+
+(** ** steps that do not touch the ownership skeleton: provide, pause, non-cleanup log entries,
+       the error flag *)
+Definition same_skel_owner (a b : owner) : Prop :=
+  o_parent b = o_parent a /\ o_children b = o_children a /\ o_nodes b = o_nodes a /\
+  o_cleanups b = o_cleanups a /\ o_alive b = o_alive a.
+
+Record same_skel (c c' : core) : Prop := {
+  sk_owners : Forall2 same_skel_owner (owners c) (owners c');
+  sk_slots : slots c' = slots c;
+  sk_free : free c' = free c;
+  sk_cid : next_cid c' = next_cid c;
+  sk_unowned : unowned c' = unowned c;
+  sk_log : cids (clog c') = cids (clog c);
+  sk_err : err c' = false -> err c = false
+}.
+
+Lemma skel_owner c c' p b : same_skel c c' -> nth_error (owners c') p = Some b ->
+  exists a, nth_error (owners c) p = Some a /\ same_skel_owner a b.
+Proof. intros S. exact (Forall2_nth_r _ _ _ (sk_owners _ _ S) p b). Qed.
+
+Lemma skel_pending c c' : same_skel c c' -> pending c' = pending c.
+Proof.
+  intros S. unfold pending. pose proof (sk_owners _ _ S) as H.
+  induction H as [|a b l l' (_ & _ & _ & Hc & _) _ IH]; cbn; [reflexivity|]. rewrite Hc, IH. reflexivity.
+Qed.
+
+Lemma skel_get c c' k : same_skel c c' -> get c' k = get c k.
+Proof. intros S. unfold get. rewrite (sk_slots _ _ S). reflexivity. Qed.
+
+Lemma cinv_skel c c' : same_skel c c' -> cinv c -> cinv c'.
+Proof.
+  intros S I. destruct I as [[Wc Wm] Wp Hnd Hcid Hkeys [Hf1 Hf2] Hreg].
+  assert (Hlen : length (owners c') = length (owners c))
+    by (symmetry; eapply Forall2_len, sk_owners, S).
+  constructor.
+  - constructor.
+    + intros p b q Hb Hq. destruct (skel_owner _ _ _ _ S Hb) as (a & Ha & (_ & Hc & _)).
+      rewrite Hc in Hq. rewrite Hlen. eauto.
+    + intros p b k m mo Hb Hk Hg. destruct (skel_owner _ _ _ _ S Hb) as (a & Ha & (_ & Hc & Hn & _)).
+      rewrite Hn in Hk. rewrite Hc. rewrite (skel_get _ _ _ S) in Hg. eauto.
+  - intros q b p Hb Hp. destruct (skel_owner _ _ _ _ S Hb) as (a & Ha & (Hpa & _)).
+    rewrite Hpa in Hp. eauto.
+  - unfold nd. rewrite (sk_log _ _ S), (skel_pending _ _ S). exact Hnd.
+  - rewrite (sk_log _ _ S), (skel_pending _ _ S), (sk_cid _ _ S). exact Hcid.
+  - intros p b k Hb Hk. destruct (skel_owner _ _ _ _ S Hb) as (a & Ha & (_ & _ & Hn & _)).
+    rewrite Hn in Hk. rewrite (sk_slots _ _ S). eauto.
+  - rewrite (sk_free _ _ S), (sk_slots _ _ S). auto.
+  - intros He Hu k Hv. unfold valid in Hv. rewrite (skel_get _ _ _ S) in Hv.
+    rewrite (sk_unowned _ _ S) in Hu.
+    destruct (Hreg (sk_err _ _ S He) Hu k Hv) as (p & a & Ha & Hal & Hk).
+    destruct (Forall2_nth_l _ _ _ (sk_owners _ _ S) p a Ha) as (b & Hb & (_ & _ & Hn & _ & Hal')).
+    exists p, b. rewrite Hn, Hal'. auto.
+Qed.
+
+Lemma skel_refl_owner a : same_skel_owner a a.
+Proof. repeat split. Qed.
+
+Lemma skel_upd_owner c o f :
+  (forall a, same_skel_owner a (f a)) -> same_skel c (upd_owner o f c).
+Proof.
+  intros H. constructor; cbn; auto.
+  apply Forall2_upd; [apply skel_refl_owner|intros; apply H].
+Qed.
+
+Lemma skel_provide c o ty v : same_skel c (provide o ty v c).
+Proof. apply skel_upd_owner. intros a. repeat split. Qed.
+
+Lemma skel_log c l : cids l = [] -> same_skel c (add_log c l).
+Proof.
+  intros H. constructor; cbn; auto; [apply Forall2_refl, skel_refl_owner|].
+  rewrite cids_app, H. reflexivity.
+Qed.
+
+Lemma skel_set_err c : same_skel c (set_err c).
+Proof. constructor; cbn; auto; [apply Forall2_refl, skel_refl_owner|discriminate]. Qed.
+
+Lemma skel_trans a b c : same_skel a b -> same_skel b c -> same_skel a c.
+Proof.
+  intros [] []. constructor; try congruence; auto.
+  eapply Forall2_trans; [|eauto|eauto].
+  intros x y z (A1 & A2 & A3 & A4 & A5) (B1 & B2 & B3 & B4 & B5). repeat split; congruence.
+Qed.
+Lemma skel_refl c : same_skel c c.
+Proof. constructor; auto. apply Forall2_refl, skel_refl_owner. Qed.
+
+Lemma skel_set_paused fuel b : forall o c, same_skel c (set_paused fuel b o c).
+Proof.
+  induction fuel as [|f IH]; intros o c; [apply skel_set_err|]. cbn [set_paused].
+  destruct (nth_error (owners c) o) as [ow|]; [|apply skel_refl].
+  destruct (o_alive ow); [|apply skel_refl].
+  assert (H : forall xs c0, same_skel c c0 ->
+            same_skel c (fold_left (fun c ch => set_paused f b ch c) xs c0)).
+  { induction xs as [|x xs IHx]; intros c0 S0; cbn; [exact S0|].
+    apply IHx. eapply skel_trans; [exact S0|apply IH]. }
+  apply H. apply skel_upd_owner. intros a. repeat split.
+Qed.
